@@ -351,10 +351,21 @@ def is_excluded(name):
 
 
 def values_equal(a, b):
+    """
+    a = value observed, b = reference value.  Exact for strings and for integer references
+    (an integer field must not lose precision through a float detour, however wide it is);
+    a relative tolerance of 1e-12 only where the reference itself is a float (scaled fields).
+    """
     if isinstance(a, str) or isinstance(b, str):
+        return a == b
+    if isinstance(a, bool) != isinstance(b, bool) and (isinstance(a, bool) or isinstance(b, bool)):
         return a == b
     if a == b:
         return True
+    if isinstance(b, int) and isinstance(a, int):
+        return False
+    if isinstance(b, int) and abs(b) >= 2 ** 53:
+        return False
     try:
         return abs(a - b) <= 1e-12 * max(abs(a), abs(b))
     except TypeError:
